@@ -1,29 +1,313 @@
-(* Proofs_C27.v — lemmas and proofs for C27; the property theorems are re-exported in Prop_C27.v. *)
+(* Proofs_C27.v — crash consistency of a store and of the listing; the property theorems are re-exported in Prop_C27.v. *)
 From Coq Require Import List NArith ZArith Bool Arith Lia Permutation.
-From Coq Require Decimal Hexadecimal DecimalN DecimalFacts DecimalPos HexadecimalN HexadecimalFacts HexadecimalPos.
 From Coq Require String.
 Import String.StringSyntax.
 Import ListNotations.
-From Verif Require Import Base.Val C18.Fs C18.FsLemmas C27.Model_C27 C27.Spec_C27.
+From Verif Require Import Base.Val C18.Fs C18.FsLemmas C27.Model_C27 C27.Spec_C27 C27.Lemmas_C27 C27.Roundtrip_C27.
 Local Open Scope N_scope.
 
-(* ------------------------------------------------------------------ numerals *)
-Lemma str_uint_uint_str u : str_uint (uint_str u) = Some u.
-Proof. induction u; cbn [uint_str str_uint]; try rewrite IHu; reflexivity. Qed.
 
-Lemma to_uint_not_nil n : N.to_uint n <> Decimal.Nil.
+(* ------------------------------------------------------------------ the store on the filesystem *)
+Definition is_mkdir (o : op) : Prop := exists p m, o = Mkdir p m.
+Definition mkdir_paths (ops : list op) : list path :=
+  flat_map (fun o => match o with Mkdir p _ => [p] | _ => [] end) ops.
+Definition is_dir_opt (o : option node) : Prop := exists m u g t, o = Some (Dir m u g t).
+
+Lemma can_create_unbound s p : can_create s p = true -> lookup s p = None.
+Proof. unfold can_create. destruct p as [|x p]; [discriminate|]. destruct (lookup s (x :: p)); [discriminate|reflexivity]. Qed.
+
+(* a run of mkdir calls only turns unbound paths it names into directories *)
+Lemma mkdirs_run : forall ops, Forall is_mkdir ops -> forall s q,
+  lookup (run ops s) q = lookup s q \/
+  (lookup s q = None /\ In q (mkdir_paths ops) /\ is_dir_opt (lookup (run ops s) q)).
 Proof.
-  destruct n as [|p]; cbn; [discriminate|].
-  apply DecimalPos.Unsigned.to_uint_nonnil.
+  induction 1 as [|o r [p [m ->]] Hr IH]; intros s q; [now left|].
+  cbn [run apply_op]. destruct (can_create s p) eqn:Hc; cbn iota; [|now left].
+  pose proof (can_create_unbound _ _ Hc) as Hu.
+  destruct (IH (set_node s p (Dir m ME ME NOW)) q) as [E|[E1 [E2 E3]]].
+  - rewrite E, lookup_set_node. destruct (path_eq_dec q p) as [->|Hne]; [|now left].
+    right. split; [exact Hu|]. split; [cbn; now left|].
+    now exists m, ME, ME, NOW.
+  - rewrite lookup_set_node in E1. destruct (path_eq_dec q p); [discriminate|].
+    right. split; [exact E1|]. split; [cbn; now right|exact E3].
 Qed.
 
-Lemma uint_str_nil u : uint_str u = [] -> u = Decimal.Nil.
-Proof. destruct u; cbn; intro H; try discriminate; reflexivity. Qed.
+Lemma mkdirs_run_frame ops s q : Forall is_mkdir ops -> ~ In q (mkdir_paths ops) ->
+  lookup (run ops s) q = lookup s q.
+Proof. intros H Hn. destruct (mkdirs_run ops H s q) as [E|[_ [Hin _]]]; [exact E|contradiction]. Qed.
 
-Lemma parse_num_dec_proof n : parse_num (dec n) = Some n.
+Lemma prefixes_len base rest p : In p (prefixes_from base rest) -> (length p <= length base + length rest)%nat.
 Proof.
-  unfold parse_num, dec.
-  destruct (uint_str (N.to_uint n)) eqn:E.
-  - apply uint_str_nil in E. exfalso. eapply to_uint_not_nil; eauto.
-  - rewrite <- E, str_uint_uint_str. f_equal. apply DecimalN.Unsigned.of_to.
+  revert base. induction rest as [|c r IH]; intros base H; [destruct H|]. cbn in H. destruct H as [<-|H].
+  - rewrite app_length. cbn. lia.
+  - apply IH in H. rewrite app_length in H. cbn in *. lia.
+Qed.
+
+Lemma mkdir_ops_spec s dir : Forall is_mkdir (mkdir_ops s dir) /\
+  forall p, In p (mkdir_paths (mkdir_ops s dir)) -> (length p <= length dir)%nat.
+Proof.
+  unfold mkdir_ops. split.
+  - apply Forall_forall. intros o Ho. apply in_flat_map in Ho as [p [_ Ho]].
+    destruct (lookup s p); [destruct Ho|]. destruct Ho as [<-|[]]. now exists p, MODE_DIR.
+  - intros p Hp. unfold mkdir_paths in Hp. apply in_flat_map in Hp as [o [Ho Hp]].
+    apply in_flat_map in Ho as [p' [Hp' Ho]]. destruct (lookup s p'); [destruct Ho|].
+    destruct Ho as [<-|[]]. destruct Hp as [<-|[]]. apply prefixes_len in Hp'. cbn in Hp'. exact Hp'.
+Qed.
+
+Lemma firstn_is_mkdir k ops : Forall is_mkdir ops -> Forall is_mkdir (firstn k ops).
+Proof. apply Forall_firstn. Qed.
+Lemma firstn_mkdir_paths k ops p : In p (mkdir_paths (firstn k ops)) -> In p (mkdir_paths ops).
+Proof.
+  unfold mkdir_paths. intro H. apply in_flat_map in H as [o [Ho Hp]]. apply in_flat_map.
+  exists o. split; [|exact Hp]. rewrite <- (firstn_skipn k ops). apply in_or_app. now left.
+Qed.
+
+(* names *)
+Lemma tmp_path_split loc pid cpv :
+  tmp_path loc pid cpv = (loc ++ removelast cpv) ++ [tmp_name pid (last cpv [])].
+Proof. unfold tmp_path. now rewrite app_assoc. Qed.
+Lemma parent_tmp loc pid cpv : parent (tmp_path loc pid cpv) = loc ++ removelast cpv.
+Proof. unfold parent. rewrite tmp_path_split. apply removelast_last. Qed.
+
+Lemma tmp_name_len pid n : (length n < length (tmp_name pid n))%nat.
+Proof. unfold tmp_name. rewrite app_length, app_length. change (length (46 :: n)) with (S (length n)).
+  match goal with |- (_ < ?a + (?b + _))%nat => generalize a b end. intros; lia. Qed.
+
+Lemma tmp_ne_target loc pid cpv : cpv <> [] -> tmp_path loc pid cpv <> target_path loc cpv.
+Proof.
+  intros Hne E. unfold tmp_path, target_path in E. apply app_inv_head in E.
+  apply (f_equal (fun l => last l [])) in E. rewrite last_last in E. pose proof (tmp_name_len pid (last cpv [])) as L. rewrite E in L. exact (Nat.lt_irrefl _ L).
+Qed.
+
+Lemma len_removelast {A} (l : list A) : l <> [] -> length l = S (length (removelast l)).
+Proof. intro H. destruct (exists_last H) as [l' [a ->]]. rewrite removelast_last, app_length. cbn. lia. Qed.
+Lemma len_tmp loc pid cpv : cpv <> [] -> length (tmp_path loc pid cpv) = (length loc + length cpv)%nat.
+Proof.
+  intro Hne. rewrite tmp_path_split, !app_length. cbn [length].
+  rewrite (len_removelast cpv Hne). lia.
+Qed.
+Lemma len_parent (loc cpv : path) : cpv <> [] -> (length (loc ++ removelast cpv) < length loc + length cpv)%nat.
+Proof. intro Hne. rewrite app_length. rewrite (len_removelast cpv Hne). lia. Qed.
+
+Lemma perm_ops_ok tmp gid : Forall (perm_on tmp) (perm_ops tmp gid).
+Proof. unfold perm_ops. repeat constructor. Qed.
+
+(* the node a complete store leaves at the target *)
+Definition new_node (content : str) (gid : N) (i : N) : node := File content PERMS ME gid NOW i.
+
+Lemma staged_new content gid tmp i :
+  staged_node MODE_TMP (chunks_of content) (perm_ops tmp gid) i = new_node content gid i.
+Proof. unfold staged_node, perm_ops, chunks_of, new_node. cbn. rewrite concat_singletons. reflexivity. Qed.
+
+(* THE FRAME of a store at every crash point k *)
+Theorem store_frame_proof : forall s loc pid gid cpv content k,
+  cpv <> [] ->
+  let tmp := tmp_path loc pid cpv in
+  let target := target_path loc cpv in
+  let ops := store_ops s loc pid gid cpv content in
+  let sk := run (firstn k ops) s in
+  (forall q, q <> target -> q <> tmp ->
+     lookup sk q = lookup s q \/ (lookup s q = None /\ is_dir_opt (lookup sk q))) /\
+  (lookup sk target = lookup s target \/
+   (exists i, lookup sk target = Some (new_node content gid i)) /\ lookup sk tmp = None /\ (length ops <= k)%nat).
+Proof.
+  intros s loc pid gid cpv content k Hne tmp target ops sk.
+  set (rep := replace_ops tmp target MODE_TMP (chunks_of content) (perm_ops tmp gid)).
+  set (pre := if isdir s (parent tmp) then [] else mkdir_ops s (parent tmp)).
+  assert (Eops : ops = pre ++ rep).
+  { subst ops pre rep. unfold store_ops. fold tmp target. destruct (isdir s (parent tmp)); reflexivity. }
+  assert (Hpre : Forall is_mkdir pre /\ forall p, In p (mkdir_paths pre) -> (length p < length loc + length cpv)%nat).
+  { subst pre. destruct (isdir s (parent tmp)).
+    - split; [constructor|intros p []].
+    - destruct (mkdir_ops_spec s (parent tmp)) as [H1 H2]. split; [exact H1|].
+      intros p Hp. apply H2 in Hp. subst tmp. rewrite parent_tmp in Hp.
+      pose proof (len_parent loc cpv Hne). lia. }
+  destruct Hpre as [Hmk Hlen].
+  assert (Htmp_out : ~ In tmp (mkdir_paths pre))
+    by (intro H; apply Hlen in H; subst tmp; rewrite len_tmp in H by exact Hne; lia).
+  assert (Htgt_out : ~ In target (mkdir_paths pre))
+    by (intro H; apply Hlen in H; subst target; unfold target_path in H; rewrite app_length in H; lia).
+  assert (Hne2 : tmp <> target) by (apply tmp_ne_target; exact Hne).
+  subst sk. rewrite Eops, firstn_app, run_app.
+  set (a := firstn k pre).
+  assert (Ha : Forall is_mkdir a) by (apply firstn_is_mkdir; exact Hmk).
+  assert (Hain : forall p, In p (mkdir_paths a) -> In p (mkdir_paths pre)) by (intro p; apply firstn_mkdir_paths).
+  assert (Hmid : forall q, lookup (run a s) q = lookup s q \/ (lookup s q = None /\ is_dir_opt (lookup (run a s) q))).
+  { intro q. destruct (mkdirs_run a Ha s q) as [E|[E1 [_ E3]]]; [now left|right; now split]. }
+  assert (Hmid_tgt : lookup (run a s) target = lookup s target)
+    by (apply mkdirs_run_frame; [exact Ha|intro H; apply Htgt_out, Hain, H]).
+  destruct (run_opt a s) as [s1|] eqn:Ero.
+  - pose proof (run_opt_run _ _ _ Ero) as Es1. rewrite Es1 in Hmid, Hmid_tgt.
+    destruct (atomic_replace s1 tmp target MODE_TMP (chunks_of content) (perm_ops tmp gid) (k - length pre) Hne2
+                (perm_ops_ok tmp gid)) as [Hfr Hp]. fold rep in Hfr, Hp.
+    split.
+    + intros q Hq1 Hq2. rewrite (Hfr q Hq1 Hq2). apply Hmid.
+    + destruct Hp as [Hp|[s2 [Hs2 [Hp [Hgone Hk]]]]]; [left; congruence|].
+      right. split; [|split; [exact Hgone|]].
+      * exists (fresh_ino s1). rewrite Hp.
+        rewrite (staged_complete _ _ _ _ _ _ (perm_ops_ok tmp gid) Hs2). f_equal. apply staged_new.
+      * rewrite app_length.
+        destruct (Nat.le_gt_cases (length pre) k) as [Hle|Hgt]; [lia|].
+        replace (k - length pre)%nat with 0%nat in Hk by lia. subst rep. unfold replace_ops in Hk. cbn in Hk. lia.
+  - split.
+    + intros q _ _. apply Hmid.
+    + left. exact Hmid_tgt.
+Qed.
+
+
+(* ------------------------------------------------------------------ readers at a crash point *)
+Lemma target_inj loc a b : target_path loc a = target_path loc b -> a = b.
+Proof. unfold target_path. apply app_inv_head. Qed.
+
+Theorem store_atomic_proof : forall lay s loc pid gid cpv content k,
+  cpv <> [] ->
+  let ops := store_ops s loc pid gid cpv content in
+  let sk := run (firstn k ops) s in
+  read_entry lay sk loc cpv = read_entry lay s loc cpv \/
+  ((length ops <= k)%nat /\ read_entry lay sk loc cpv = parse lay content).
+Proof.
+  intros lay s loc pid gid cpv content k Hne ops sk.
+  destruct (store_frame_proof s loc pid gid cpv content k Hne) as [_ [H|[[i H] [_ Hk]]]];
+    fold ops in H; fold sk in H; unfold read_entry.
+  - left. rewrite H. reflexivity.
+  - right. split; [exact Hk|]. rewrite H. reflexivity.
+Qed.
+
+(* every other entry that exists is read exactly as before *)
+Theorem store_others_proof : forall lay s loc pid gid cpv content k cpv',
+  cpv <> [] -> cpv' <> cpv -> target_path loc cpv' <> tmp_path loc pid cpv ->
+  lookup s (target_path loc cpv') <> None ->
+  let sk := run (firstn k (store_ops s loc pid gid cpv content)) s in
+  read_entry lay sk loc cpv' = read_entry lay s loc cpv'.
+Proof.
+  intros lay s loc pid gid cpv content k cpv' Hne Hd Ht Hb sk.
+  destruct (store_frame_proof s loc pid gid cpv content k Hne) as [Hfr _].
+  destruct (Hfr (target_path loc cpv')) as [E|[E _]]; [intro E; apply Hd, (target_inj loc), E|exact Ht| |contradiction].
+  unfold read_entry. fold sk in E. rewrite E. reflexivity.
+Qed.
+
+(* ------------------------------------------------------------------ the listing *)
+Lemma lookup_in_keys s p n : lookup s p = Some n -> In p (map fst s).
+Proof. intro H. apply lookup_In in H. apply (in_map fst) in H. exact H. Qed.
+
+Definition listable (b : bool) (loc p : path) (n : node) : bool :=
+  is_prefix loc p && negb (is_dir_node n)
+  && negb (match skipn (length loc) p with [] => true | _ => false end)
+  && forallb (listed_name b) (skipn (length loc) p).
+
+Lemma keys_gen_spec b s loc key :
+  In key (keys_gen b s loc) <->
+  exists p n, lookup s p = Some n /\ listable b loc p n = true /\ key = join_on c_sl (skipn (length loc) p).
+Proof.
+  unfold keys_gen. rewrite in_flat_map. split.
+  - intros [p [_ H]]. destruct (lookup s p) as [n|] eqn:E; [|destruct H].
+    fold (listable b loc p n) in H. destruct (listable b loc p n) eqn:L; [|destruct H].
+    destruct H as [<-|[]]. now exists p, n.
+  - intros [p [n [E [L ->]]]]. exists p. split; [eapply lookup_in_keys; eauto|].
+    rewrite E. fold (listable b loc p n). rewrite L. now left.
+Qed.
+
+Lemma skipn_loc (loc rest : path) : skipn (length loc) (loc ++ rest) = rest.
+Proof. rewrite skipn_app, skipn_all, Nat.sub_diag. reflexivity. Qed.
+
+Lemma startswith_app p r : startswith p (p ++ r) = true.
+Proof. unfold startswith. rewrite firstn_app, firstn_all, Nat.sub_diag. cbn. rewrite app_nil_r. apply str_eqb_refl. Qed.
+
+(* with the repair, the staging file is never listable *)
+Lemma tmp_not_listable loc pid cpv n : listable true loc (tmp_path loc pid cpv) n = false.
+Proof.
+  unfold listable, tmp_path. rewrite skipn_loc, forallb_app. cbn [forallb].
+  unfold listed_name at 2. unfold tmp_name. rewrite startswith_app. cbn [andb negb].
+  rewrite !andb_false_r. reflexivity.
+Qed.
+
+Lemma listable_node b loc p n n' : is_dir_node n = is_dir_node n' -> listable b loc p n = listable b loc p n'.
+Proof. unfold listable. intros ->. reflexivity. Qed.
+
+Theorem listing_no_partial_proof : forall lay s loc pid gid cpv content k,
+  cpv <> [] ->
+  let sk := run (firstn k (store_ops s loc pid gid cpv content)) s in
+  listing_ok lay s sk loc cpv (parse lay content).
+Proof.
+  intros lay s loc pid gid cpv content k Hne sk key Hin.
+  apply keys_gen_spec in Hin as [p [n [E [L ->]]]].
+  destruct (store_frame_proof s loc pid gid cpv content k Hne) as [Hfr Htg]. fold sk in Hfr, Htg.
+  destruct (path_eq_dec p (tmp_path loc pid cpv)) as [->|Hnt]; [rewrite tmp_not_listable in L; discriminate|].
+  destruct (path_eq_dec p (target_path loc cpv)) as [->|Hng].
+  - destruct Htg as [Ho|[[i Hi] _]].
+    + left. apply keys_gen_spec. exists (target_path loc cpv), n. rewrite <- Ho. auto.
+    + right. unfold target_path. rewrite skipn_loc. split; [reflexivity|].
+      unfold read_entry. rewrite Hi. reflexivity.
+  - destruct (Hfr p Hng Hnt) as [Eq|[_ [m [u [g [t Ed]]]]]].
+    + left. apply keys_gen_spec. exists p, n. rewrite <- Eq. auto.
+    + rewrite Ed in E. injection E as <-. unfold listable in L. cbn in L. rewrite andb_false_r in L. discriminate.
+Qed.
+
+(* no committed entry disappears from the listing during a store *)
+Theorem listing_keeps_proof : forall s loc pid gid cpv content k key,
+  cpv <> [] ->
+  let sk := run (firstn k (store_ops s loc pid gid cpv content)) s in
+  In key (keys s loc) -> In key (keys sk loc).
+Proof.
+  intros s loc pid gid cpv content k key Hne sk Hin.
+  apply keys_gen_spec in Hin as [p [n [E [L ->]]]].
+  destruct (store_frame_proof s loc pid gid cpv content k Hne) as [Hfr Htg]. fold sk in Hfr, Htg.
+  destruct (path_eq_dec p (tmp_path loc pid cpv)) as [->|Hnt]; [rewrite tmp_not_listable in L; discriminate|].
+  apply keys_gen_spec.
+  destruct (path_eq_dec p (target_path loc cpv)) as [->|Hng].
+  - destruct Htg as [Ho|[[i Hi] _]].
+    + exists (target_path loc cpv), n. rewrite Ho. auto.
+    + exists (target_path loc cpv), (new_node content gid i). split; [exact Hi|]. split; [|reflexivity].
+      transitivity (listable true loc (target_path loc cpv) n); [|exact L]. apply listable_node. unfold listable in L. destruct (is_dir_node n); [|reflexivity].
+      cbn in L. rewrite andb_false_r in L. discriminate L.
+  - destruct (Hfr p Hng Hnt) as [Eq|[En _]]; [|congruence].
+    exists p, n. rewrite Eq. auto.
+Qed.
+
+(* ------------------------------------------------------------------ non-vacuity and the pinned tree *)
+Definition ex_entry : entry :=
+  mk_entry [(lit "DESCRIPTION", lit "a tool"); (lit "EAPI", lit "8"); (lit "BOGUS", lit "x")]
+           (Some [(lit "eutils", mk_e (lit "/r/eclass/eutils.eclass") 1700000000 255)])
+           (Some (mk_e (lit "/r/cat/pkg/pkg-1.ebuild") 1700000001 4096)).
+Definition ex_cpv : path := [lit "cat"; lit "pkg-1"].
+Definition ex_old : str := lit "EAPI=7" ++ [c_nl] ++ lit "_mtime_=5" ++ [c_nl].
+Definition ex_fs : fs := mk_fs true [(ex_cpv, ex_old); ([lit "cat"; lit "other-2"], ex_old)].
+Definition ex_content : str := match serialize Flat ex_entry with Some c => c | None => [] end.
+Definition ex_ops : list op := store_ops ex_fs LOC 4242 250 ex_cpv ex_content.
+
+Example ex_wf : wf_entry ex_entry.
+Proof.
+  split; [|split; reflexivity]. cbn. repeat constructor; cbn; intuition discriminate.
+Qed.
+(* the complete store is visible, and is the stored entry *)
+Example ex_complete :
+  read_entry Flat (run ex_ops ex_fs) LOC ex_cpv = parse Flat ex_content /\
+  (exists d, parse Flat ex_content = inl d /\
+             dget (lit "DESCRIPTION") d = Some (PStr (lit "a tool")) /\ dget (lit "_mtime_") d = Some (PNum 1700000001) /\
+             dget (lit "BOGUS") d = None) /\
+  read_entry Flat ex_fs LOC ex_cpv <> parse Flat ex_content.
+Proof.
+  split; [vm_compute; reflexivity|]. split; [|vm_compute; discriminate].
+  eexists. split; [vm_compute; reflexivity|]. vm_compute. auto.
+Qed.
+(* in the middle of the store the old entry is read and the listing is the old one *)
+Example ex_midway :
+  read_entry Flat (run (firstn 20 ex_ops) ex_fs) LOC ex_cpv = read_entry Flat ex_fs LOC ex_cpv /\
+  keys (run (firstn 20 ex_ops) ex_fs) LOC = keys ex_fs LOC /\
+  lookup (run (firstn 20 ex_ops) ex_fs) (tmp_path LOC 4242 ex_cpv) <> None.
+Proof. repeat split; vm_compute; congruence. Qed.
+
+(* the pinned tree (keys_gen false = no '.update.' filter): the same crash point lists the
+   half-written staging file as a package.  This is the defect repaired by
+   fixes/C27-skip-update-temp.patch. *)
+Definition listing_ok_unrepaired : Prop :=
+  forall s loc pid gid cpv content k, cpv <> [] ->
+    forall key, In key (keys_gen false (run (firstn k (store_ops s loc pid gid cpv content)) s) loc) ->
+      In key (keys_gen false s loc) \/ key = join_on c_sl cpv.
+Theorem listing_unrepaired_refuted_proof : ~ listing_ok_unrepaired.
+Proof.
+  intro H. specialize (H ex_fs LOC 4242 250 ex_cpv ex_content 20%nat ltac:(discriminate)
+                         (lit "cat/.update.4242.pkg-1")).
+  destruct H as [H|H]; [vm_compute; tauto|vm_compute in H|vm_compute in H; discriminate].
+  intuition discriminate.
 Qed.
